@@ -247,3 +247,48 @@ func Verif_C20_SwapDB() {
 	vr.Assert(!panicked && err == nil && isStringReply(g, va), "C20.swapdb.sees_other_database")
 	vr.Reach("end")
 }
+
+// Verif_C20_SelectLeavesBookkeepingAlone: SELECT j or HELLO issued by a connection never changes
+// anything in any database — not only the keys but also the deadlines' index and the eviction
+// bookkeeping of database j (already populated) and of a third database.
+func Verif_C20_SelectLeavesBookkeepingAlone() {
+	s := c08Server(constants.AllKeysLFU)
+	s.config.MaxMemory = 1 << 50
+	i, j, o := symDB("i"), symDB("j"), symDB("o")
+	vr.Assume(o != j)
+	conn := verifTCPConn(s, i)
+	k, v := vr.Tok("k"), vr.Tok("v")
+	for _, db := range []int{j, o} {
+		verifPreset(s, db, k, v)
+		verifPresetExpiry(s, db, k, time.UnixMilli(3_000_000_000_000))
+		vr.Quiesce()
+		if _, err := s.updateKeysInCache(verifCtx(db), []string{k}); err != nil {
+			panic("verif: updateKeysInCache failed under the limit")
+		}
+	}
+	count := func(db int) int {
+		c, err := s.lfuCache.cache[db].GetCount(k)
+		if err != nil {
+			return -1
+		}
+		return c
+	}
+	cj, co := count(j), count(o)
+	vr.Assert(cj > 0 && co > 0 && volatileIndexHas(s, j, k) && volatileIndexHas(s, o, k), "C20.select_bookkeeping.pre_state_listed")
+	var err error
+	var panicked bool
+	switch vr.Choose("cmd", 3) {
+	case 0:
+		_, err, panicked = verifRunTCP(s, conn, "SELECT", strconv.Itoa(j))
+	case 1:
+		s.connInfo.tcpClients[conn] = internal.ConnectionInfo{Id: 1, Protocol: 2, Database: j}
+		_, err, panicked = verifRunTCP(s, conn, "HELLO", "3")
+	case 2:
+		_ = s.SelectDB(j)
+	}
+	vr.Assert(!panicked && err == nil, "C20.select_bookkeeping.noerror")
+	vr.Assert(gHoldsIn(s, j, k, gVal{kind: gStr, str: v}) && gHoldsIn(s, o, k, gVal{kind: gStr, str: v}), "C20.select_bookkeeping.data_untouched")
+	vr.Assert(volatileIndexHas(s, j, k) && volatileIndexHas(s, o, k), "C20.select_bookkeeping.volatile_index_untouched")
+	vr.Assert(count(j) == cj && count(o) == co, "C20.select_bookkeeping.eviction_bookkeeping_untouched")
+	vr.Reach("end")
+}
